@@ -502,3 +502,44 @@ impl<Fut: std::future::Future<Output = ()> + Unpin> std::future::Future for Unlo
     }
   }
 }
+
+// ---------------------------------------------------------------- C07
+pub fn wait_until_backwards(at: Instant) -> Duration { Instant::now().duration_since(at) }
+pub fn wait_until_forwards(at: Instant) -> Duration { at.saturating_duration_since(Instant::now()) }
+pub struct NoDelayObserver<O, SD> { delay: Duration, scheduler: SD, observer: MutRc<Option<O>> }
+fn ctl_emit<Item, Err>((mut observer, value): (impl Observer<Item, Err>, Item)) -> NormalReturn<()> {
+  observer.next(value);
+  NormalReturn::new(())
+}
+impl<Item, Err, O, SD> Observer<Item, Err> for NoDelayObserver<O, SD>
+where
+  O: Observer<Item, Err>,
+  SD: Scheduler<crate::scheduler::OnceTask<(MutRc<Option<O>>, Item), NormalReturn<()>>>,
+{
+  fn next(&mut self, value: Item) {
+    let task = crate::scheduler::OnceTask::new(ctl_emit, (self.observer.clone(), value));
+    let _ = self.scheduler.schedule(task, None);
+  }
+  fn error(self, err: Err) { self.observer.error(err) }
+  fn complete(self) { self.observer.complete() }
+  fn is_finished(&self) -> bool { self.observer.is_finished() }
+}
+
+// ---------------------------------------------------------------- C08
+pub struct NoRearmRepeat<Args> { fur: futures::future::BoxFuture<'static, ()>, interval: Duration, task: fn(&mut Args, usize) -> bool, args: Args, seq: usize }
+impl<Args: Unpin> std::future::Future for NoRearmRepeat<Args> {
+  type Output = ();
+  fn poll(self: std::pin::Pin<&mut Self>, cx: &mut std::task::Context<'_>) -> std::task::Poll<()> {
+    use futures::FutureExt;
+    let this = self.get_mut();
+    futures::ready!(this.fur.poll_unpin(cx));
+    loop {
+      // ticks as fast as it can after the first period; counts even when the task declines
+      let go = (this.task)(&mut this.args, this.seq);
+      this.seq += 2;
+      if !go {
+        return std::task::Poll::Ready(());
+      }
+    }
+  }
+}
